@@ -215,6 +215,30 @@ def main(argv=None):
                 violations.append(v)
         elif r.get('tried', 0) == 0:
             errors.append('bounded stand-in for %s evaluated zero inputs' % qn)
+    # bounded scenario stand-ins (real objects, generated event sequences, oracles from the property statement)
+    for scen, n, what in SCENARIO_UNITS.get(prop, []):
+        nn = n * (1 if tier == 'quick' else 10)
+        r = native(dict(mode='scenario', scenario=scen, n=nn, seed=seed), timeout=900)
+        bounded_units.append(dict(unit='scenario:' + scen, bound='%d generated event sequences of length <= 14 (seed %d)' % (nn, seed),
+                                  evaluations=r.get('tried', 0), distinct=r.get('distinct', 0), reason=what))
+        if r.get('harness_error'):
+            errors.append('scenario stand-in %s failed to run: %s' % (scen, r['harness_error'][-400:]))
+        elif r.get('hit'):
+            failed = r['hit']['run']['failed'][0]
+            if not failed.startswith(prop + ':'):
+                # an oracle of another property fired: reported by that property's own check
+                continue
+            oid = '%s:scenario.%s:%s' % (prop, scen, failed.split(':', 1)[1])
+            v = dict(obligation=oid, path=0, note='bounded scenario stand-in', solver='none (bounded)', smt_head=None, model=None,
+                     ladder=dict(kind='confirmed', rung='bounded-scenario', inputs=r['hit']['inputs'], run=r['hit']['run']))
+            wit = witness_text(v)
+            kf = [k for k in known if k['prop'] == prop and k['obligation'] == oid and (k['witness'] == '*' or k['witness'] in wit)]
+            if kf:
+                known_hits.append((oid, kf[0]['witness']))
+            else:
+                violations.append(v)
+        elif r.get('tried', 0) == 0:
+            errors.append('scenario stand-in %s evaluated zero scenarios' % scen)
     rc = 0
     os.makedirs(os.path.join(VERIF, 'replays', prop), exist_ok=True)
     for oid, w in known_hits:
@@ -229,8 +253,9 @@ def main(argv=None):
         rc = 1
     if rc == 0 and errors:
         rc = 3
-    if rc == 0 and n_obl == 0:
-        errors.append('zero obligations generated for %s' % prop)
+    bounded_evals = sum(b.get('evaluations', 0) for b in bounded_units)
+    if rc == 0 and n_obl == 0 and bounded_evals == 0:
+        errors.append('zero obligations generated and zero bounded evaluations for %s' % prop)
         rc = 3
     if rc == 0 and undecided:
         rc = 2
@@ -259,8 +284,15 @@ def write_evidence(prop, tier, seed, eng, funcs, n_obl, n_dis, by_backend, solve
     meta = PROP_META.get(prop, {})
     trusted = list(TRUSTED_BASE) + meta.get('trusted', [])
     proved_all = n_obl > 0 and n_dis == n_obl and not undecided and not errors
+    level = PROP_LEVEL.get(prop, 'proof')
+    bl = list(bounded_units)
+    expl = meta.get('explanation', '')
+    if level == 'other':
+        expl = ('Mixed evidence: %d deductive obligations discharged for the units under contract; the rest of the property is '
+                'covered by bounded stand-ins only (labelled, never counted as discharged): %s' % (
+                    n_dis, '; '.join('%s: %s, %d evaluated' % (b['unit'], b['bound'], b['evaluations']) for b in bl) or 'none'))
     ev = dict(
-        property_id=prop, tier=tier, seed=seed, level='proof',
+        property_id=prop, tier=tier, seed=seed, level=level,
         coverage=dict(
             obligations=n_obl, discharged=n_dis, distinct_obligation_names=distinct,
             checker_cmd='cd /verif && ./check %s --%s   (pyvc: VC generation from the ast of /repo/afkak/*.py, z3 %s then /usr/bin/cvc5)'
@@ -276,7 +308,11 @@ def write_evidence(prop, tier, seed, eng, funcs, n_obl, n_dis, by_backend, solve
             samples=samples or [dict(note='no discharged post/invariant obligation to sample')],
             source_sha256={k: v for k, v in driver.file_hashes(eng).items()},
             all_discharged=proved_all,
-            explanation=meta.get('explanation', ''),
+            explanation=expl,
+            evaluations=sum(b.get('evaluations', 0) for b in bl) + n_obl,
+            distinct_nontrivial=sum(b.get('distinct', 0) for b in bl) + distinct,
+            rule='deductive part: one evaluation per obligation instance (named obligation x path); bounded part: generated '
+                 'scenarios/inputs, distinct = distinct event scripts / argument tuples',
         ),
         assumptions=ASSUMPTIONS + meta.get('assumptions', []),
         wall_s=round(wall, 2), violations=len(violations),
@@ -314,6 +350,22 @@ ASSUMPTIONS = [
 ]
 
 PROP_META = {}
+PROP_LEVEL = {'C07': 'other', 'C08': 'other', 'C15': 'other', 'C18': 'other', 'C20': 'other'}
+
+SCENARIO_UNITS = {
+    'C13': [('consumer', 400, 'Consumer.stop()/shutdown() (500+ symbolic paths) and their interleavings with replies, timers and processor results')],
+    'C03': [('consumer', 400, 'commit()/auto-commit chains across processor results: a committed offset was successfully processed')],
+    'C02': [('consumer', 400, 'delivery order / no concurrent invocation across fetch replies, retries and compaction gaps')],
+    'C01': [('broker_aware', 300, 'KafkaClient._send_broker_aware_request with acks=0/1 and failing brokers (polymorphic @inlineCallbacks code)')],
+    'C07': [('broker_aware', 300, 'one request per broker, responses in payload order, failed payloads accounted for exactly once')],
+    'C20': [('client_close', 400, 'nested close aggregates (_close_brokerclients) across metadata refreshes and close()')],
+    'C08': [('metadata_merge', 300, '_merge_topic_metadata / reset_topic_metadata (dict-of-dict code with KeyError control flow)')],
+    'C06': [('brokerclient', 300, 'close()/cancel/response interleavings with re-entrant cancellation from callbacks')],
+    'C15': [('assignment', 300, '_round_robin_assignment (sets, itertools.cycle, nested defaultdict) over member-order permutations')],
+    'C18': [('partitioner', 300, 'pure_murmur2 against an independent 32-bit transcription of the Java function; round-robin fairness with list changes')],
+    'C16': [('group', 400, 'ConsumerGroup consumer creation/teardown and requests after stop across the @inlineCallbacks join sequence')],
+    'C17': [('group', 400, 'never-idle oracle over generated fault sequences')],
+}
 
 
 if __name__ == '__main__':
